@@ -168,6 +168,13 @@ func classifyLoop(info *types.Info, fs *ast.ForStmt) (class, shape string) {
 			}
 		}
 	}
+	if fs.Cond == nil && fs.Post != nil {
+		if p, ok := fs.Post.(*ast.IncDecStmt); ok && p.Tok == token.INC {
+			if id, ok := p.X.(*ast.Ident); ok && cappedByCounter(info, fs, info.Uses[id]) {
+				return "counted", shape + " (capped by the step counter)"
+			}
+		}
+	}
 	if fs.Cond == nil || fs.Post == nil {
 		return "uncounted", shape
 	}
@@ -237,6 +244,9 @@ func classifyLoop(info *types.Info, fs *ast.ForStmt) (class, shape string) {
 	}
 	scan(be)
 	if !okCond {
+		if up && cappedByCounter(info, fs, iv) {
+			return "counted", shape + " (capped by the step counter)"
+		}
 		return "uncounted", shape
 	}
 	if assignsTo(info, fs.Body, map[types.Object]bool{iv: true}) {
@@ -246,6 +256,54 @@ func classifyLoop(info *types.Info, fs *ast.ForStmt) (class, shape string) {
 		return "modified", shape + " (body writes the bound)"
 	}
 	return "counted", shape
+}
+
+// cappedByCounter: the loop's post statement increments iv, the body never assigns iv, and a top-level statement of the
+// body is `if iv > B { return / break / panic }` (or >=) with B not assigned in the body: the loop ends after at most B+1
+// cycles whatever its own condition does.
+func cappedByCounter(info *types.Info, fs *ast.ForStmt, iv types.Object) bool {
+	if iv == nil || assignsTo(info, fs.Body, map[types.Object]bool{iv: true}) {
+		return false
+	}
+	for _, st := range fs.Body.List {
+		is, ok := st.(*ast.IfStmt)
+		if !ok || is.Init != nil || len(is.Body.List) == 0 {
+			continue
+		}
+		be, ok := ast.Unparen(is.Cond).(*ast.BinaryExpr)
+		if !ok || (be.Op != token.GTR && be.Op != token.GEQ) {
+			continue
+		}
+		id, ok := ast.Unparen(be.X).(*ast.Ident)
+		if !ok || info.Uses[id] != iv {
+			continue
+		}
+		bound := map[types.Object]bool{}
+		ast.Inspect(be.Y, func(n ast.Node) bool {
+			if b, ok := n.(*ast.Ident); ok {
+				if v, ok := info.Uses[b].(*types.Var); ok && !v.IsField() {
+					bound[v] = true
+				}
+			}
+			return true
+		})
+		if len(bound) > 0 && assignsTo(info, fs.Body, bound) {
+			continue
+		}
+		switch last := is.Body.List[len(is.Body.List)-1].(type) {
+		case *ast.ReturnStmt:
+			return true
+		case *ast.BranchStmt:
+			if last.Tok == token.BREAK && last.Label == nil {
+				return true
+			}
+		case *ast.ExprStmt:
+			if ce, ok := last.X.(*ast.CallExpr); ok && calleeName(ce) == "panic" {
+				return true
+			}
+		}
+	}
+	return false
 }
 
 func loopCensus(c *core.Ctx) []loopInfo {
